@@ -33,7 +33,8 @@ THEOREMS = [f'Gnpy.Fiber.{t}' for t in (
     'cd_at_ref', 'split_span_invariant')] + [f'Gnpy.Raman.{t}' for t in (
     'euler_zero_cr', 'eulerFactor_bounds', 'perturbative_zero_cr', 'perturbGo_zero_cr', 'perturbative_zero_cr_grid',
     'perturbative_low_power', 'gamma1_bound', 'createLumped_prod', 'euler_budget',
-    'counterprop_gain_only_partial', 'gamma1_nonneg')]
+    'counterprop_gain_only_partial', 'gamma1_nonneg', 'trapz_nonneg', 'sprs_term_nonneg', 'sprs_ase_nonneg',
+    'sprs_pump_order_irrelevant', 'sprs_misindexed_can_be_negative_old')]
 RULE = ('cases from one PRNG: (a) one span: random fibre (0.1-300 km in km or m, scalar or per-frequency loss, 0-3 lumped '
         'losses, ~6 % with two lumped losses at one position, connectors, padding, dispersion +/-/slope/table) x comb of 1-24 '
         'channels (quick) with random previously accumulated CD/PMD/PDL/latency; (b) paths of 2-8 real elements (Fiber, Roadm '
@@ -73,7 +74,7 @@ MANIFEST = {
              'correspondence; proved: at zero Raman efficiency Euler is the grid product within 2 a^2 sum dz^2 Neper of the '
              'budget and the perturbative method is exactly the budget with each lumped loss once; first-order term linear '
              'in the power scale and non-negative for non-negative efficiencies. "Methods agree", the gain-only statement at '
-             'full order and the iterative co/counter algorithm are covered by the monitor only (see level_note).'),
+             'full order and the iterative co/counter algorithm are covered by the monitor only; the spontaneous Raman ASE is modelled (inputs: SRS profiles, cr) with non-negativity and pump-order theorems (see level_note).'),
 }
 
 SIM_OFF = {'raman_params': {'flag': False}, 'nli_params': {'method': 'gn_model_analytic'}}
@@ -93,7 +94,9 @@ def gen(rng, tier, widen=False):
         return gen_path(rng, tier, widen)
     if k < 0.80:
         return gen_designed(rng, tier)
-    if k < 0.90:
+    if k < 0.85:
+        return gen_sprs(rng, tier)
+    if k < 0.92:
         return gen_malformed(rng, tier)
     return gen_raman(rng, tier, widen)
 
@@ -213,6 +216,35 @@ def gen_malformed(rng, tier):
     return {'kind': 'malformed', 'bad': bad, 'fibre': fib, 'comb': comb, 'init': _init(rng, n, zero=True)}
 
 
+def gen_sprs(rng, tier):
+    """spontaneous Raman scattering: RamanFiber with 1-4 pumps, co- and counter-propagating in ANY list order, above and
+    below the signal band (the SRS result lists co-propagating pumps first whatever the list order)"""
+    n = rng.randint(2, 8)
+    lo = rng.choice([186.5e12, 188.0e12, 191.3e12])
+    hi = rng.choice([196.0e12, 197.0e12, 193.5e12])
+    slots = sorted(rng.sample(range(int((hi - lo) / 100e9)), n))
+    comb = {'style': 'raman', 'f': [lo + 50e9 + k * 100e9 for k in slots], 'b': [rng.choice([32e9, 64e9]) for _ in range(n)],
+            'slot': [100e9] * n, 'p_dbm': [round(rng.uniform(-3, 5), 2) for _ in range(n)]}
+    fib = FB.gen_fibre(rng, 185e12, 208e12, lumped=False)
+    fib['length'] = round(rng.uniform(3, 50), 3)
+    fib['length_units'] = 'km'
+    if rng.random() < 0.4:
+        fib['lumped_losses'] = [{'position': round(rng.uniform(0.05, 0.95) * fib['length'], 3), 'loss': rng.choice([0.5, 1.0])}]
+    freqs = rng.sample([199e12, 201e12, 203e12, 205e12, 206e12, 185.5e12, 185.8e12], rng.randint(1, 4))
+    pumps = []
+    for f in freqs:
+        d = rng.choice(['coprop', 'counterprop'])
+        pumps.append({'power': round(rng.uniform(0.02, 0.12) if d == 'coprop' else rng.uniform(0.05, 0.3), 4),
+                      'frequency': f, 'propagation_direction': d})
+    if len(pumps) >= 2 and rng.random() < 0.5:
+        # the order F23 was about: a counter-propagating pump listed before a co-propagating one
+        pumps[0]['propagation_direction'], pumps[1]['propagation_direction'] = 'counterprop', 'coprop'
+        pumps[1]['power'] = min(pumps[1]['power'], 0.12)
+    return {'kind': 'sprs', 'fibre': fib, 'comb': comb, 'pumps': pumps, 'method': rng.choice(['perturbative', 'numerical']),
+            'order': rng.choice([1, 2, 3]), 'solver_res': rng.choice([200, 500]), 'result_res': rng.choice([1e3, 5e3]),
+            'temperature': rng.choice([283, 298, 273.15]), 'init': _init(rng, n, zero=True)}
+
+
 def gen_raman(rng, tier, widen):
     """Raman on: wide sparse comb (so that the inter-channel transfer is visible), optional counter-propagating pumps
     above the signal band (as in raman_edfa_example_network.json), random solver settings"""
@@ -313,6 +345,8 @@ def _dup_positions(p):
 def run(case, drv):
     if case['kind'] == 'raman':
         return run_raman(case, drv)
+    if case['kind'] == 'sprs':
+        return run_sprs(case, drv)
     with FB.sim_params(SIM_OFF):
         return {'span': run_span, 'path': run_path, 'malformed': run_span, 'designed': run_designed}[case['kind']](case, drv)
 
@@ -953,6 +987,49 @@ def run_raman(case, drv):
     return res
 
 
+def run_sprs(case, drv):
+    """RamanSolver.calculate_spontaneous_raman_scattering on a real RamanFiber, pump list in the given and in the reversed
+    order, vs Gnpy.Raman.sprsChannel fed with the SRS result (every pump row with ITS frequency and efficiency column)"""
+    from gnpy.core.elements import RamanFiber
+    from gnpy.core.science_utils import RamanSolver
+    res = Result()
+    p, comb = case['fibre'], case['comb']
+    n = len(comb['f'])
+    pw = [10 ** (x / 10) * 1e-3 for x in comb['p_dbm']]
+    results = []
+    for tag, pumps in (('given order', case['pumps']), ('reversed order', case['pumps'][::-1])):
+        fiber = FB.mk_fiber(p, cls=RamanFiber, operational={'temperature': case['temperature'], 'raman_pumps': pumps})
+        si = _si(comb, case['init'], pw=pw)
+        with FB.sim_params(_raman_sim(case)):
+            srs = RamanSolver.calculate_stimulated_raman_scattering(si, fiber)
+            ase = [float(x) for x in RamanSolver.calculate_spontaneous_raman_scattering(si, srs, fiber)]
+        cr = np.asarray(fiber.cr(srs.frequency))[:n, n:]
+        ans = drv.ask('c05.sprs', temperature=f2b(case['temperature']), z=fl(srs.z), baud=fl(si.baud_rate),
+                      f=fl(si.frequency), loss=[fl(r) for r in srs.loss_profile[:n]], pump_f=fl(srs.frequency[n:]),
+                      pump_cr=[fl(cr[:, k]) for k in range(cr.shape[1])], pump_profile=[fl(r) for r in srs.power_profile[n:]])
+        res.cmp_floats(f'RamanSolver.calculate_spontaneous_raman_scattering[{tag}]', ase, [b2f(x) for x in ans['ase']],
+                       abs_=1e-30)
+        for i in range(n):
+            if not (ase[i] >= 0.0):
+                res.fail(f'ASE sign: {tag} of the pump list ({[(q["propagation_direction"], q["frequency"]) for q in pumps]}): '
+                         f'spontaneous Raman ASE on channel {i} is {ase[i]!r} W', channel=i)
+                break
+        results.append(ase)
+    a, b = results
+    if any(abs(x - y) > 1e-9 * max(abs(x), abs(y), 1e-30) for x, y in zip(a, b)):
+        res.fail(f'pump order: the spontaneous Raman ASE depends on the order of the pump list: {a[:3]} vs {b[:3]}')
+    dirs = [q['propagation_direction'] for q in case['pumps']]
+    first_co = dirs.index('coprop') if 'coprop' in dirs else None
+    counter_before_co = first_co is not None and 'counterprop' in dirs[:first_co]
+    res.nontrivial = any(x > 0 for x in a)
+    res.stats.update({'kind_sprs': 1, f'sprs_pumps_{len(dirs)}': 1, 'sprs_mixed_directions': int(len(set(dirs)) == 2),
+                      'sprs_counter_listed_before_co': int(counter_before_co),
+                      'sprs_pump_below_band': int(any(q['frequency'] < min(comb['f']) for q in case['pumps'])),
+                      'sprs_pump_above_band': int(any(q['frequency'] > max(comb['f']) for q in case['pumps'])),
+                      'sprs_ase_positive': int(any(x > 0 for x in a))})
+    return res
+
+
 def json_key(e):
     import json
     return json.dumps(e, sort_keys=True)
@@ -1015,7 +1092,12 @@ def _simplify_fibre(p, malformed=False):
 def shrink_candidates(case):
     if case['kind'] != 'designed':
         yield from _drop_channels(case)
-    if case['kind'] in ('span', 'malformed', 'raman'):
+    if case['kind'] == 'sprs' and len(case['pumps']) > 1:
+        for i in range(len(case['pumps'])):
+            c = copy.deepcopy(case)
+            del c['pumps'][i]
+            yield c
+    if case['kind'] in ('span', 'malformed', 'raman', 'sprs'):
         for q in _simplify_fibre(case['fibre'], case['kind'] == 'malformed'):
             c = copy.deepcopy(case)
             c['fibre'] = q
